@@ -44,7 +44,7 @@ fn bait(rng: &mut Rng, g: &ExprGen, cols: &[(String, Ty)]) -> Expr {
     let b = |e: Expr| Box::new(e);
     let any_col = |rng: &mut Rng| rng.below(cols.len() as u64) as usize;
     let int_cols: Vec<usize> = cols.iter().enumerate().filter(|(_, c)| c.1.is_int()).map(|(i, _)| i).collect();
-    let bool_e = |rng: &mut Rng| g.gen(rng, Ty::Bool, 1);
+    let bool_e = |rng: &mut Rng| g.expr(rng, Ty::Bool, 1);
     match rng.below(22) {
         0 => {
             let i = any_col(rng);
@@ -74,7 +74,7 @@ fn bait(rng: &mut Rng, g: &ExprGen, cols: &[(String, Ty)]) -> Expr {
         6 => Expr::Not(b(Expr::bin(*rng.pick(&[Op::And, Op::Or]), bool_e(rng), bool_e(rng)))),
         7 => {
             let t = g.any_ty_pub(rng);
-            Expr::In(rng.chance(1, 2), b(g.gen(rng, t, 1)), vec![])
+            Expr::In(rng.chance(1, 2), b(g.expr(rng, t, 1)), vec![])
         }
         8 => {
             let t = g.any_ty_pub(rng);
@@ -122,15 +122,15 @@ fn bait(rng: &mut Rng, g: &ExprGen, cols: &[(String, Ty)]) -> Expr {
         14 => {
             // CASE with literal conditions
             let t = g.any_ty_pub(rng);
-            let c = |rng: &mut Rng| if rng.chance(1, 2) { Expr::Lit(Val::Bool(rng.chance(1, 2)), Ty::Bool, false) } else { g.gen(rng, Ty::Bool, 1) };
+            let c = |rng: &mut Rng| if rng.chance(1, 2) { Expr::Lit(Val::Bool(rng.chance(1, 2)), Ty::Bool, false) } else { g.expr(rng, Ty::Bool, 1) };
             let n = 1 + rng.below(3) as usize;
-            Expr::Case(None, (0..n).map(|_| (c(rng), g.gen(rng, t, 1))).collect(), if rng.chance(1, 2) { Some(b(g.gen(rng, t, 1))) } else { None })
+            Expr::Case(None, (0..n).map(|_| (c(rng), g.expr(rng, t, 1))).collect(), if rng.chance(1, 2) { Some(b(g.expr(rng, t, 1))) } else { None })
         }
         15 => {
             // boolean CASE (rewritten into AND/OR)
             let n = 1 + rng.below(2) as usize;
-            let bl = |rng: &mut Rng| if rng.chance(1, 2) { Expr::Lit(*rng.pick(&[Val::Bool(true), Val::Bool(false), Val::Null]), Ty::Bool, false) } else { g.gen(rng, Ty::Bool, 1) };
-            Expr::Case(None, (0..n).map(|_| (g.gen(rng, Ty::Bool, 1), bl(rng))).collect(), if rng.chance(2, 3) { Some(b(bl(rng))) } else { None })
+            let bl = |rng: &mut Rng| if rng.chance(1, 2) { Expr::Lit(*rng.pick(&[Val::Bool(true), Val::Bool(false), Val::Null]), Ty::Bool, false) } else { g.expr(rng, Ty::Bool, 1) };
+            Expr::Case(None, (0..n).map(|_| (g.expr(rng, Ty::Bool, 1), bl(rng))).collect(), if rng.chance(2, 3) { Some(b(bl(rng))) } else { None })
         }
         16 => {
             let a = bool_e(rng);
@@ -150,7 +150,7 @@ fn bait(rng: &mut Rng, g: &ExprGen, cols: &[(String, Ty)]) -> Expr {
         }
         18 => {
             let t = if rng.chance(2, 3) { Ty::Int(64) } else { Ty::Str };
-            Expr::Between(rng.chance(1, 2), b(g.gen(rng, t, 1)), b(g.lit(rng, t)), b(g.lit(rng, t)))
+            Expr::Between(rng.chance(1, 2), b(g.expr(rng, t, 1)), b(g.lit(rng, t)), b(g.lit(rng, t)))
         }
         19 if !int_cols.is_empty() => {
             // A >= c AND A <= c ; A = L1 AND A != L2
@@ -164,12 +164,12 @@ fn bait(rng: &mut Rng, g: &ExprGen, cols: &[(String, Ty)]) -> Expr {
         }
         20 => {
             let t = g.any_ty_pub(rng);
-            Expr::Is(IsKind::Null, rng.chance(1, 2), b(g.gen(rng, t, 1)))
+            Expr::Is(IsKind::Null, rng.chance(1, 2), b(g.expr(rng, t, 1)))
         }
         _ => {
             // LIKE with constant patterns
             let pats = ["%", "a%", "%a", "a", "", "a_", "%%", "A\\%"];
-            Expr::Like { neg: rng.chance(1, 3), ci: false, e: b(g.gen(rng, Ty::Str, 1)), pat: b(Expr::Lit(Val::Str(rng.pick(&pats).replace('\\', "")), Ty::Str, false)), esc: None }
+            Expr::Like { neg: rng.chance(1, 3), ci: false, e: b(g.expr(rng, Ty::Str, 1)), pat: b(Expr::Lit(Val::Str(rng.pick(&pats).replace('\\', "")), Ty::Str, false)), esc: None }
         }
     }
 }
@@ -181,8 +181,8 @@ fn embed(rng: &mut Rng, g: &ExprGen, e: Expr, ty_is_bool: bool) -> Expr {
     }
     match rng.below(6) {
         0 => Expr::Not(Box::new(e)),
-        1 => Expr::and(e, g.gen(rng, Ty::Bool, 1)),
-        2 => Expr::bin(Op::Or, g.gen(rng, Ty::Bool, 1), e),
+        1 => Expr::and(e, g.expr(rng, Ty::Bool, 1)),
+        2 => Expr::bin(Op::Or, g.expr(rng, Ty::Bool, 1), e),
         3 => Expr::Is(*rng.pick(&[IsKind::True, IsKind::False, IsKind::Unknown, IsKind::Null]), rng.chance(1, 2), Box::new(e)),
         _ => e,
     }
@@ -228,10 +228,15 @@ pub fn run(run: &mut Run, args: &Args) {
         let g = ExprGen { cols: &infos, outer: &[], err_pct: 15, allow_like: true };
         let e = if rng.chance(1, 2) {
             let raw = bait(&mut rng, &g, &cols);
-            embed(&mut rng, &g, raw, true)
+            let is_bool = {
+                use datafusion_expr::ExprSchemable;
+                let s0 = DFSchema::try_from(schema_of(&cols).as_ref().clone()).unwrap();
+                matches!(raw.df(&cols).get_type(&s0), Ok(arrow::datatypes::DataType::Boolean))
+            };
+            embed(&mut rng, &g, raw, is_bool)
         } else {
             let ty = if rng.chance(2, 3) { Ty::Bool } else { gen_ty(&mut rng) };
-            g.gen(&mut rng, ty, 1 + rng.below(if run.thorough() { 4 } else { 3 }) as u32)
+            g.expr(&mut rng, ty, 1 + rng.below(if run.thorough() { 4 } else { 3 }) as u32)
         };
         // `embed` may have wrapped a non-boolean bait in boolean operators: keep only well-typed trees
         let schema = schema_with_nullability(&cols, &nullable);
